@@ -259,4 +259,72 @@ theorem number_sound (ext : Ext) (t : List Char) (q : Rat) (h : Spec.C15.number?
   · exact numberBody_sound ext .neg _ q h
   · exact numberBody_sound ext .pos t q h
 
+theorem isLetter_iff (c : Char) : Spec.C15.isLetter c = true ↔
+    (97 ≤ c.toNat ∧ c.toNat ≤ 122) ∨ (65 ≤ c.toNat ∧ c.toNat ≤ 90) := by
+  simp only [Spec.C15.isLetter, Bool.or_eq_true, Bool.and_eq_true, decide_eq_true_eq, Char.le_def,
+    UInt32.le_iff_toNat_le]
+  rfl
+
+theorem letter_facts {c : Char} (h : Spec.C15.isLetter c = true) :
+    isWs c = false ∧ isDigit c = false ∧ c ≠ '+' ∧ c ≠ '-' ∧ c ≠ '.' := by
+  rw [isLetter_iff] at h
+  have hd : ¬ (isDigit c = true) := by rw [isDigit_iff]; omega
+  refine ⟨?_, by simpa using hd, ?_, ?_, ?_⟩
+  · simp only [isWs, Bool.or_eq_false_iff, decide_eq_false_iff_not, char_eq_iff]
+    have e1 : ' '.toNat = 32 := rfl
+    have e2 : '\t'.toNat = 9 := rfl
+    have e3 : '\n'.toNat = 10 := rfl
+    have e4 : '\r'.toNat = 13 := rfl
+    omega
+  all_goals
+    simp only [ne_eq, char_eq_iff]
+    have e1 : '-'.toNat = 45 := rfl
+    have e2 : '+'.toNat = 43 := rfl
+    have e4 : '.'.toNat = 46 := rfl
+    omega
+
+theorem spec_isSpace : Spec.C15.isSpace = isWs := rfl
+theorem spec_lower : Spec.C15.lowerAscii = lower := rfl
+
+theorem booleanTexts_eq : Gen.booleanTexts = ["false".toList, "true".toList] := by decide
+
+/-- **Every word operand is typed as text** (when the date parser does not accept it). -/
+theorem word_is_text (ext : Ext) (t : List Char) (hw : Spec.C15.isWord t = true)
+    (hdate : ext.dateParse t = none) : typeOperand ext t = some (.text t) := by
+  cases t with
+  | nil => simp [Spec.C15.isWord] at hw
+  | cons c r =>
+    simp only [Spec.C15.isWord, Bool.and_eq_true, Bool.not_eq_true', spec_isSpace, spec_lower] at hw
+    obtain ⟨⟨⟨hl, hlast⟩, _⟩, hres⟩ := hw
+    obtain ⟨hws, hdg, hp, hm, hdot⟩ := letter_facts hl
+    have hs : strip (c :: r) = c :: r := by
+      apply strip_id
+      · intro x hx; simp at hx; subst hx; exact hws
+      · intro x hx; rw [hx] at hlast; simpa using hlast
+    have hsg : signOf (c :: r) = (1, c :: r) := by
+      unfold signOf; split <;> simp_all
+    have hdu : digitsUS (c :: r) = none := by simp [digitsUS, hdg]
+    have hint : pyIntOfText (c :: r) = none := by simp [pyIntOfText, hs, hsg, hdu]
+    have hres' : ¬ ((c :: r).map lower = "inf".toList ∨ (c :: r).map lower = "infinity".toList ∨
+        (c :: r).map lower = "nan".toList) ∧ (c :: r).map lower ≠ "true".toList ∧
+        (c :: r).map lower ≠ "false".toList := by
+      simp only [Spec.C15.reserved, List.contains_eq_mem, List.mem_cons, List.not_mem_nil, or_false,
+        decide_eq_false_iff_not] at hres
+      exact ⟨fun h => hres (by rcases h with h | h | h <;> simp [h]), fun h => hres (by simp [h]),
+        fun h => hres (by simp [h])⟩
+    have hfl : pyFloatOfText (c :: r) = none := by
+      unfold pyFloatOfText
+      simp only [hs, hsg, hdu, hres'.1, if_false]
+      split <;> simp_all
+    have hb : textBoolByContent (c :: r) = none := by
+      have : Gen.booleanTexts.contains ((c :: r).map lower) = false := by
+        rw [booleanTexts_eq]
+        simp only [List.contains_eq_mem, List.mem_cons, List.not_mem_nil, or_false, decide_eq_false_iff_not]
+        intro h; rcases h with h | h
+        · exact hres'.2.2 h
+        · exact hres'.2.1 h
+      simp only [textBoolByContent, this]
+      simp
+    simp [typeOperand, textNumber, hint, hfl, hb, hdate, castDateTime]
+
 end XlVerif.Lemmas.C15
